@@ -1299,6 +1299,35 @@ impl<'a> Describe for BorrowBytes<'a> {
     }
 }
 
+/// optional / nested borrowed byte slices: `Option<&'de [u8]>` is serialized as `some(SEQUENCE of u8)` and read with
+/// `deserialize_option` → `deserialize_bytes` from a NULLABLE binary column (seeded c04h: a sequence written into a
+/// nullable binary column marked null)
+#[derive(Serialize, Deserialize, Debug, PartialEq, Clone)]
+pub struct BorrowBytesOpt<'a> {
+    #[serde(borrow)]
+    pub o: Option<&'a [u8]>,
+    #[serde(borrow)]
+    pub v: Vec<Option<&'a [u8]>>,
+    #[serde(borrow)]
+    pub t: (Option<&'a [u8]>, u8),
+    #[serde(borrow, with = "serde_bytes")]
+    pub w: Option<&'a [u8]>,
+}
+
+impl<'a> Describe for BorrowBytesOpt<'a> {
+    fn ty() -> Value {
+        st(
+            "BorrowBytesOpt",
+            vec![
+                f("o", d::<Option<&[u8]>>()),
+                f("v", d::<Vec<Option<&[u8]>>>()),
+                f("t", d::<(Option<&[u8]>, u8)>()),
+                f("w", json!({"t": "option", "a": {"t": "bytes", "target": "bytes"}})),
+            ],
+        )
+    }
+}
+
 #[derive(Serialize, Deserialize, Debug, PartialEq, Clone)]
 pub struct BorrowCow<'a> {
     #[serde(borrow)]
@@ -1361,7 +1390,7 @@ plain!(
     SeqCollections, HashSetField, Deep, Arrays, Tuples, RootTuple, TupleInVec, HMap, BMapStruct, BMapIntKey, BMapVecValues,
     MapInVec, MapEnumValues, MapEnumKeys, MapOfMaps, Strs, Bytes, BytesNested, Chars, Renamed, Camel, Scream, Wrap<RenamedVariants>,
     HasRenamedColor, Defaults, ContainerDefault, Skips, Wrap<SkipsInVariant>, Wrap<Meters>, TransparentStruct, HasTransparent,
-    BorrowStr<'static>, BorrowBytes<'static>, BorrowCow<'static>, BorrowNested<'static>, Wrap<BorrowEnum<'static>>,
+    BorrowStr<'static>, BorrowBytes<'static>, BorrowBytesOpt<'static>, BorrowCow<'static>, BorrowNested<'static>, Wrap<BorrowEnum<'static>>,
     Wrap<i32>, Wrap<Vec<Option<String>>>, Wrap<Wrap<Inner>>, serde_arrow::utils::Item<i64>, serde_arrow::utils::Item<DataOnly>,
     NewtypeOfNewtype, NewtypeOfTuple, TupleStructRich, RootArray, EmptyTuple, Newtype, UnitS, Option<Inner>, DataOnly, NewtypeOfOption,
 );
@@ -1458,6 +1487,7 @@ macro_rules! zoo_types {
             (HasTransparent, "HasTransparent", "attr-transparent", []),
             (BorrowStr<'static>, "BorrowStr", "borrowed-str", ["borrowed"]),
             (BorrowBytes<'static>, "BorrowBytes", "borrowed-bytes", ["borrowed"]),
+            (BorrowBytesOpt<'static>, "BorrowBytesOpt", "borrowed-bytes-option", ["borrowed"]),
             (BorrowCow<'static>, "BorrowCow", "borrowed-str", ["borrowed"]),
             (BorrowNested<'static>, "BorrowNested", "borrowed-str", ["borrowed"]),
             (Wrap<BorrowEnum<'static>>, "Wrap<BorrowEnum>", "borrowed-str-enum", ["borrowed"]),
